@@ -51,7 +51,9 @@ CHECKS = {
                 technique="stateless model checking of 2-3 concurrent real invocations under a controlled scheduler; interval-overlap and commit-before-handover oracle on the event order",
                 text="Two or three top-level invocations contending for one target, for a shared dependency, redo against redo-ifchange, and an invocation that takes an error "
                      "exit while its job is still running; every schedule with <= b deviations (quick 1, thorough 2-3) at lock try/wait/unlock, transaction begin, event loop, fork "
-                     "hand-over, token pipe and script gates. From the scheduler's total event order: begin/end of one target's script never overlap; between a script's end and "
+                     "hand-over, token pipe and script gates; plus the out-of-band (redo-unlocked) rebuild against a second invocation, and an environment player that "
+                     "SIGKILLs a whole invocation tree at any step while a second invocation wants the same targets (the survivor must exit 0 with correct contents). "
+                     "From the scheduler's total event order: begin/end of one target's script never overlap; between a script's end and "
                      "the next acquisition of that target's lock there is a record-begin followed by COMMIT from the recording process; every finished execution is recorded.",
                 note="Script begin/end come from the generated scripts (trap EXIT). SIGKILL of an invocation's parent only (kernel frees fcntl locks of a dead owner while its "
                      "script survives) is outside these scenarios and is not claimed."),
